@@ -365,11 +365,11 @@ func subT(rc *kernel.RunCtx, k *kernel.Kernel) {
 	body := sent[0]
 	bl := len(body)
 	muts := []string{
-		"\r\n" + string(body),                                  // missing header
-		"Content-Length: 0\r\n\r\n",                            // zero
-		"Content-Length: -5\r\n\r\n" + string(body),            // negative
-		"Content-Length: abc\r\n\r\n" + string(body),           // non-numeric
-		"Content-Length: 99999999999999\r\n\r\n" + string(body), // overflow
+		"\r\n" + string(body),                                                          // missing header
+		"Content-Length: 0\r\n\r\n",                                                    // zero
+		"Content-Length: -5\r\n\r\n" + string(body),                                    // negative
+		"Content-Length: abc\r\n\r\n" + string(body),                                   // non-numeric
+		"Content-Length: 99999999999999\r\n\r\n" + string(body),                        // overflow
 		fmt.Sprintf("Content-Length: %d\r\nContent-Length: %d\r\n\r\n%s", 1, bl, body), // duplicate, last wins or error
 		fmt.Sprintf("Content-Length: %d\n\n%s", bl, body),                              // LF only
 		fmt.Sprintf("X-Unknown: y\r\nContent-Type: application/vscode-jsonrpc; charset=utf-8\r\nContent-Length: %d\r\n\r\n%s", bl, body),
